@@ -33,6 +33,10 @@ pub enum Marked {
           extra: u16 },
     /// application message with its protocol's reply marker set
     App { base: AppReq, tcp: bool, sport: u16, dport: u16, variant: u8 },
+    /// the same, delivered as a later segment of a TCP flow that a valid request of the same
+    /// protocol (`first`) has already identified: the responder then sees the marked message
+    /// without any signature in front of it
+    AppLater { first: AppReq, base: AppReq, sport: u16, dport: u16, variant: u8 },
 }
 
 #[derive(Clone, Debug, Serialize, Deserialize, PartialEq)]
@@ -57,6 +61,7 @@ pub fn case_strategy() -> impl Strategy<Value = Case> {
             2 => (any::<bool>(), any::<u16>(), any::<u16>(), bytes(40)).prop_map(|(na, id, seq, data)| Marked::Icmp { na, id, seq, data }),
             3 => (any::<bool>(), port(), port(), any::<u32>(), any::<u32>(), prop_oneof![2 => Just(Hex(vec![])), 1 => bytes(40)], prop_oneof![3 => Just(0u16), 2 => prop::sample::select(vec![F_FIN, F_ACK, F_FIN | F_ACK, F_URG, F_ECE, F_CWR, F_NS, F_FIN | F_ACK | F_URG, F_ACK | F_ECE]), 1 => (0u16..512).prop_map(|f| f & !(F_PSH | F_SYN | F_RST))]).prop_map(|(synack, sport, dport, seq, ack, payload, extra)| Marked::Tcp { synack, sport, dport, seq, ack, payload, extra }),
             10 => (markable_app(), any::<bool>(), port(), port(), any::<u8>()).prop_map(|(base, tcp, sport, dport, variant)| Marked::App { base, tcp, sport, dport, variant }),
+            4 => (prop_oneof![stun_req_magic_big().prop_map(AppReq::Stun), rpc_call().prop_map(AppReq::Rpc), smb_req().prop_map(AppReq::Smb)], markable_app(), port(), port(), any::<u8>()).prop_map(|(first, base, sport, dport, variant)| Marked::AppLater { first, base, sport, dport, variant }),
         ];
         (Just(scn), m).prop_map(|(scn, m)| Case { scn, m })
     })
@@ -243,6 +248,39 @@ pub fn check(c: &Case, st: &mut Stats) -> Check {
                     st.class(&format!("cross_protocol:{}->{:?}", name, y));
                     Ok(())
                 }
+            }
+        }
+        Marked::AppLater { first, base, sport, dport, variant } => {
+            // same protocol family for both (otherwise the case says nothing)
+            let fam = |a: &AppReq| match a { AppReq::Stun(_) => 1, AppReq::Rpc(_) => 2, AppReq::Smb(_) => 3, _ => 0 };
+            if fam(first) == 0 || fam(first) != fam(base) {
+                st.class("trivial:later:other-protocol-family");
+                return Ok(());
+            }
+            let fb = first.bytes(true);
+            if let super::c10::Divergence::Known(k) = super::c10::divergence(&fb, false) {
+                st.exclude(k);
+                return Ok(());
+            }
+            let (marked, who, name) = set_marker(base, true, *variant);
+            let flow = Flow { net: net.clone(), sport: *sport, dport: *dport };
+            let mut stream = fb.clone();
+            stream.extend_from_slice(&marked);
+            st.frames(3);
+            let rs = deliver(&sut, &flow, 500, &stream, &[fb.len(), marked.len()]).map_err(Failure::new)?;
+            let first_by_x = matches!(&rs[0], SegReply::Data(p) if classify_reply(p, true) == who);
+            if !first_by_x {
+                st.class(&format!("trivial:later:first-request-not-answered-by-{:?}", who));
+                return Ok(());
+            }
+            st.class(&format!("later-segment:{}", name));
+            st.nontrivial_hash(fnv(&stream) ^ 0x1a7e5);
+            match &rs[1] {
+                SegReply::Data(a) if classify_reply(a, true) == who => {
+                    vfail!("{} message (reply marker set) sent as a later segment of a flow identified as {:?} was answered by that responder: {} -> {}", name, who, hex(&marked[..marked.len().min(120)]), hex(&a[..a.len().min(120)]))
+                }
+                SegReply::Other(o) if o.starts_with("panic") => Err(Failure::keyed("panic", o.clone())),
+                _ => Ok(()),
             }
         }
     }
